@@ -132,6 +132,27 @@ pub fn minimise(prop: &dyn Property, sc: &Scenario, v: &Violation, root: &Path, 
                 }
             }
         }
+        // 3b. drop initial files and variables nobody needs
+        let mut fi = best.files.len();
+        while fi > 0 && ctx.used < ctx.budget {
+            fi -= 1;
+            let mut cand = best.clone();
+            cand.files.remove(fi);
+            if let Some(v2) = ctx.still_fails(&cand) {
+                best = cand;
+                best_v = v2;
+                progress = true;
+            }
+        }
+        for k in best.vars.keys().cloned().collect::<Vec<_>>() {
+            let mut cand = best.clone();
+            cand.vars.remove(&k);
+            if let Some(v2) = ctx.still_fails(&cand) {
+                best = cand;
+                best_v = v2;
+                progress = true;
+            }
+        }
         // 4. plans: faults, events, then choices
         for si in invoke_indices(&best) {
             // faults
@@ -174,6 +195,44 @@ pub fn minimise(prop: &dyn Property, sc: &Scenario, v: &Violation, root: &Path, 
                     best = cand;
                     best_v = v2;
                     progress = true;
+                }
+            }
+            // single operations inside the remaining fs events
+            let nev = match &best.steps[si] {
+                Step::Invoke(inv) => inv.plan.events.len(),
+                _ => 0,
+            };
+            for ei in 0..nev {
+                loop {
+                    let nops = match &best.steps[si] {
+                        Step::Invoke(inv) => match inv.plan.events.get(ei).map(|e| &e.kind) {
+                            Some(simrt::plan::PlanEventKind::Fs { ops }) => ops.len(),
+                            _ => 0,
+                        },
+                        _ => 0,
+                    };
+                    if nops <= 1 {
+                        break;
+                    }
+                    let mut removed = false;
+                    for oi in (0..nops).rev() {
+                        let mut cand = best.clone();
+                        if let Step::Invoke(inv) = &mut cand.steps[si] {
+                            if let simrt::plan::PlanEventKind::Fs { ops } = &mut inv.plan.events[ei].kind {
+                                ops.remove(oi);
+                            }
+                        }
+                        if let Some(v2) = ctx.still_fails(&cand) {
+                            best = cand;
+                            best_v = v2;
+                            removed = true;
+                            progress = true;
+                            break;
+                        }
+                    }
+                    if !removed {
+                        break;
+                    }
                 }
             }
             // choices: all-zero first
